@@ -96,11 +96,18 @@ HELPERS = [
     (25, 'replace-same-id', 'rules.C08', 'r10', 'C08.R10',
      ['ebusd::MessageMap::add'],
      'definitions loaded in replace mode must not remove other definitions that merely share the hashed key'),
+    (26, 'answer-key', 'rules.C15', 'r2', 'C15.R2',
+     ['ebusd::DirectProtocolHandler::createAnswerKey', 'ebusd::DirectProtocolHandler::getAnswer'],
+     'in answer mode every received command is looked up under the answer key: a key whose fields overlap makes ebusd '
+     'answer into (and lose) telegrams that are not addressed to it'),
+    (27, 'request-ownership', 'rules.C20', 'r22', 'C20.R22',
+     ['ebusd::ProtocolHandler::addRequest'],
+     'a request that addRequest refuses must not be lost: it is freed by the creator or not created at all'),
 ]
 
 
 # for which further properties a helper matters (besides those whose own module runs it)
-RELEVANT = {'layout': ['C06', 'C07', 'C13', 'C15'], 'crc-table': ['C15'], 'address-classes': ['C02', 'C09'], 'errno': ['C19'], 'parseint-prefix': [], 'overflow-threshold': [], 'transport-accounting': ['C01', 'C02'], 'clock': [], 'recv-deadline': ['C14'], 'tolower': ['C16', 'C18'], 'multiline-field': [], 'file-state': ['C19', 'C16'], 'serial-raw': ['C02', 'C14'], 'arbitration-disarm': ['C03'], 'enhanced-decoder': [], 'minus-sign': [], 'type-table': ['C06', 'C07'], 'entry-reset': ['C02', 'C15'], 'arbitration-pair': ['C03', 'C04', 'C20'], 'arbitration-counter': ['C03', 'C04', 'C20'], 'transport-close': ['C14', 'C01'], 'chain-prefix': ['C09'], 'decoder-incomplete': ['C01', 'C02', 'C03', 'C20'], 'decoder-deferral': ['C01', 'C02', 'C03', 'C20'], 'replace-same-id': ['C19']}
+RELEVANT = {'layout': ['C06', 'C07', 'C13', 'C15'], 'crc-table': ['C15'], 'address-classes': ['C02', 'C09'], 'errno': ['C19'], 'parseint-prefix': [], 'overflow-threshold': [], 'transport-accounting': ['C01', 'C02'], 'clock': [], 'recv-deadline': ['C14'], 'tolower': ['C16', 'C18'], 'multiline-field': [], 'file-state': ['C19', 'C16'], 'serial-raw': ['C02', 'C14'], 'arbitration-disarm': ['C03'], 'enhanced-decoder': [], 'minus-sign': [], 'type-table': ['C06', 'C07'], 'entry-reset': ['C02', 'C15'], 'arbitration-pair': ['C03', 'C04', 'C20'], 'arbitration-counter': ['C03', 'C04', 'C20'], 'transport-close': ['C14', 'C01'], 'chain-prefix': ['C09'], 'decoder-incomplete': ['C01', 'C02', 'C03', 'C20'], 'decoder-deferral': ['C01', 'C02', 'C03', 'C20'], 'replace-same-id': ['C19'], 'answer-key': ['C01', 'C03'], 'request-ownership': ['C04']}
 
 
 def share(ctx):
